@@ -7,16 +7,21 @@ def O(**kw): d = dict(PENDING); d.update(kw); return d
 SPEC = dict(
     level='exploration',
     design_ref='DESIGN.md section 3, C15',
-    rule=("exact: one case = one StringMatcher object given 4-8 patterns in turn (75% on the reused object, sometimes matched through a copy or a "
-          "swapped-in object); a pattern is generated as an AST of the documented simple syntax (literal, *, ?, [class: alphanumerics, ranges, metacharacters ? * , . + | ( ) { } $ = < > ~ ` ' \" # : as plain members, ']' first, '-' first or last, '^' and '!' not first, [^..] complement], (a|b|) groups "
+    rule=("exact: one case = 4-8 judged patterns; every judged pattern is installed on a PRNG-chosen object: fresh (20%), the object of the previous "
+          "judged pattern, a fresh object that first held 1-3 other patterns (negated / plain, numeric range / wildcard / literal, isSimple=false "
+          "regex, rejected by regcomp, SetNegate(true), Reset() in between), or an object the pool just recycled; installed by SetPattern, "
+          "operator=(const&), operator=(&&) or GetStringMatcherFromPool(pattern); matched directly, through a copy or a swapped-in object; "
+          "afterwards its accessors must equal those of a fresh object and its decisions the reference's; a pattern is generated as an AST of the documented simple syntax (literal, *, ?, [class: alphanumerics, ranges, metacharacters ? * , . + | ( ) { } $ = < > ~ ` ' \" # : as plain members, ']' first, '-' first or last, '^' and '!' not first, [^..] complement], (a|b|) groups "
           "nested <= 3, top-level comma list, leading ~, whole-pattern <a-b,c-,-d,e> ranges) over a 46-character alphabet that contains every "
           "metacharacter, printed with the minimal documented escaping or (half of the patterns) with a backslash before arbitrary literals, and "
           "matched against 12 subjects: 5 sampled from the pattern, 3 single-edit neighbours, 4 random (ranges: boundary values +-1, leading zeros, "
           "digits + junk, sign + digits, white space before/after digits, letters, empty); oracle = harness/refwild.h, a backtracking matcher over the AST.  escape: one case = 6 byte strings (1..255, every "
           "metacharacter in first and later positions, strings that look like patterns) with all deletions/substitutions/insertions/prefixes/"
           "extensions/the escaped text as neighbours.  unique: one case = 6 arbitrary, mostly ill-formed patterns (soups, escaped text with one edit, "
-          "well-formed patterns with one edit) with a candidate set of ~50 strings each.  path: one PathMatcher (1-3 path patterns of 1-3 clauses) "
-          "and one SegmentedStringMatcher against 8 paths; reference = split on '/', every clause matches its segment.  A case is non-trivial when it "
+          "well-formed patterns with one edit) with a candidate set of ~50 strings each.  path: one PathMatcher (1-3 path patterns of 1-3 clauses; half of them after an earlier life with other "
+          "patterns that were removed or cleared, entries put twice / put and removed) and one SegmentedStringMatcher (fresh, or after 1-3 other "
+          "patterns incl. negated, other separators, regex form, rejected, SetNegate, Clear, or pool-recycled; installed by SetPattern, operator= or "
+          "GetSegmentedStringMatcherFromPool(pattern)) against 8 paths; reference = split on '/', every clause matches its segment.  A case is non-trivial when it "
           "contained wildcard constructs and produced both expected matches and expected non-matches (exact, path), a string that needed escaping "
           "(escape), a pattern reported unique (unique); distinct = distinct pattern/string sets"),
     assumptions=['harness/refwild.h (written from the doc comment of StringMatcher::SetPattern and the statement of C15) is the specification; its parser is '
@@ -42,15 +47,18 @@ SPEC = dict(
         Leg('path', 'h_wildcard', 'asan', opts=O(mode='path'), quick=960, thorough=64000, workers=16, leaks=True),
         Leg('memcheck', 'h_wildcard', 'plain', opts=O(mode='all'), quick=320, thorough=8000, workers=16, valgrind=True),
     ],
-    min_stats={'regress': {'regress_checks': 220},
+    min_stats={'regress': {'regress_checks': 240},
                'exact': {'subjects_expected_match': 50000, 'subjects_expected_nomatch': 50000, 'neighbours_expected_nomatch': 10000,
                          'patterns_numeric-range': 500, 'numeric_nondigit_subjects_judged': 5000, 'patterns_negated-single': 200, 'patterns_comma-list': 300, 'patterns_single+overescaped': 1500,
                          'overescaped_literals_glibc_would_read_as_operator': 1000, 'escaped_metachar_literals': 2000, 'node_star': 4000, 'node_class': 4000, 'class_with_metachar_member': 3000, 'class_negated': 1000, 'class_with_rbracket_first': 500, 'class_with_caret_member': 400, 'class_negated_caret_first': 11,
-                         'node_group': 4000, 'empty_alternative_in_group': 1000, 'max_nesting': 3, 'plain_pattern_set_after_negated_pattern': 300,
-                         'setpattern_on_reused_matcher': 4000, 'patterns_reported_unique': 400},
+                         'node_group': 4000, 'empty_alternative_in_group': 1000, 'max_nesting': 3, 'reused_objects': 10000, 'fresh_objects': 2000, 'reuse_negated_then_plain': 1500, 'reuse_range_then_nonrange': 1500,
+                         'pooled_objects': 3000, 'pooled_object_is_the_one_just_released': 2000, 'reuse_after_failed_compile': 250, 'reuse_regex_then_simple': 500,
+                         'reuse_after_reset_or_clear': 600, 'installed_by_copy_assignment': 800, 'installed_by_move_assignment': 800, 'installed_by_pool_convenience': 800, 'patterns_reported_unique': 400},
                'escape': {'strings': 2500, 'neighbours': 50000, 'strings_with_leading_backtick': 100, 'strings_with_leading_lt': 100,
                           'strings_with_leading_tilde': 100, 'strings_that_needed_escaping': 2000},
-               'unique': {'patterns_reported_unique': 800, 'candidates': 40000, 'patterns_rejected': 200, 'unique_patterns_that_are_documented_literals': 700},
-               'path': {'numeric_nondigit_subjects_judged': 500, 'paths_expected_match': 800, 'paths_expected_nomatch': 1500, 'segmented_expected_match': 1000, 'segmented_expected_nomatch': 3000},
+               'unique': {'reused_objects': 2500, 'reuse_after_failed_compile': 300, 'reuse_negated_then_plain': 250, 'reuse_range_then_nonrange': 80, 'reuse_regex_then_simple': 400,
+                          'reused_vs_fresh_matches': 100000, 'patterns_reported_unique': 800, 'candidates': 40000, 'patterns_rejected': 200, 'unique_patterns_that_are_documented_literals': 700},
+               'path': {'reused_objects': 400, 'reuse_negated_then_plain': 100, 'pooled_objects': 120, 'reuse_after_failed_compile': 30, 'reuse_after_other_separators': 30,
+                        'pathmatcher_reused': 250, 'pathmatcher_entries_removed': 300, 'numeric_nondigit_subjects_judged': 500, 'paths_expected_match': 800, 'paths_expected_nomatch': 1500, 'segmented_expected_match': 1000, 'segmented_expected_nomatch': 3000},
                'memcheck': {'subjects': 4000, 'neighbours': 4000, 'candidates': 1500, 'paths': 200}},
 )
